@@ -1,7 +1,7 @@
 #!/usr/bin/env python3
 import os
 HERE = os.path.dirname(os.path.abspath(__file__))
-VARS = ["ReadyCheckOnce", "RestartAll", "DrainCalls", "GracefulRepliesEarly", "IgnoreTimeout", "ForcedWaits", "LifoQueue"]
+VARS = ["ReadyCheckOnce", "RestartAll", "DrainCalls", "GracefulRepliesEarly", "IgnoreTimeout", "ForcedWaits", "LifoQueue", "DrainOnlyAtStop"]
 INVS = "C07_Fifo C07_AllAccounted C01_DrainReleases"
 
 
@@ -36,4 +36,5 @@ cfg("NEG_worker_DrainCalls", 1, 2, 0, 0, 4, 1, 2, flip=["DrainCalls"])
 cfg("NEG_worker_GracefulRepliesEarly", 1, 1, 0, 0, 4, 1, 2, flip=["GracefulRepliesEarly"])
 cfg("NEG_worker_IgnoreTimeout", 1, 1, 0, 0, 4, 1, 2, flip=["IgnoreTimeout"], spec="FairSpec", props="C06w_StopAnswered", invs="")
 cfg("NEG_worker_ForcedWaits", 1, 1, 0, 0, 4, 1, 2, flip=["ForcedWaits"])
+cfg("NEG_worker_DrainOnlyAtStop", 1, 2, 0, 0, 4, 1, 2, flip=["DrainOnlyAtStop"])
 print("worker configs written")
